@@ -17,7 +17,8 @@ package bfe_bufio
 //   data   - bytes returned == src[pos:pos+n] (per-op deterministic expectation for ReadByte,
 //            ReadRune, ReadSlice, ReadLine, Peek, WriteTo as documented for bufio); what is
 //            pulled from the source and not yet delivered is still buffered, in order
-//            (checked through the public Peek(Buffered())); Writer: sink ++ buffer == acc.
+//            (buf[r:w] read in-package, no method call: the probe is side-effect free);
+//            Writer: sink ++ buffer == acc.
 //   count  - delta(TotalRead) == bytes consumed by this operation (negative for a successful
 //            Unread*), delta(TotalWrite) == bytes the operation reported as accepted.
 // Error identity is never judged. After a count violation the counter is re-synchronised so one
@@ -265,7 +266,7 @@ func c22readerOps(thorough bool) []c22rop {
 		{"ReadByte", c22oReadByte, 0}, {"UnreadByte", c22oUnreadByte, 0},
 		{"ReadRune", c22oReadRune, 0}, {"UnreadRune", c22oUnreadRune, 0},
 		{"ReadSlice", c22oReadSlice, 0}, {"ReadLine", c22oReadLine, 0},
-		{"Peek2", c22oPeek, 2}, {"Peek16", c22oPeek, c22B},
+		{"Peek0", c22oPeek, 0}, {"Peek2", c22oPeek, 2}, {"Peek16", c22oPeek, c22B},
 		{"WriteTo", c22oWriteTo, -1}, {"WriteToFail0", c22oWriteTo, 0}, {"WriteToFail5", c22oWriteTo, 5},
 	}
 	if thorough {
@@ -315,6 +316,7 @@ func c22dir(d int) string {
 func c22readerStep(b *Reader, src *c22src, m *c22model, op c22rop) (res c22res) {
 	src.calls = 0
 	preBuf, preTR, prePos := b.Buffered(), b.TotalRead, m.pos
+	preRemembered := b.r == b.w && b.lastByte >= 0 // UnreadByte will re-insert the remembered byte
 	rest := src.data[m.pos:]
 	want := 0
 	kind := ""
@@ -560,12 +562,16 @@ func c22readerStep(b *Reader, src *c22src, m *c22model, op c22rop) (res c22res) 
 		b.TotalRead = preTR + want // re-synchronise so the defect is reported once, where it happens
 	}
 
-	// stream invariant through the public API: what is buffered is exactly src[pos:pulled]
+	// stream invariant: what is buffered is exactly src[pos:pulled]. The probe must not touch
+	// the object (a Peek call may legitimately reset the unread memory, as upstream bufio's
+	// does, and would then change what a later Unread* in the script does), so the buffer is
+	// read in-package; the slice expression panics exactly where the next real read would
+	// (negative or inverted indices), hence the Guard.
 	bufd := b.Buffered()
 	var pk []byte
 	pan, pv = vk.Guard(func() {
 		if bufd >= 0 && bufd <= c22B {
-			pk, _ = b.Peek(bufd)
+			pk = append([]byte(nil), b.buf[b.r:b.w]...)
 		}
 	})
 	ok := !pan && bufd >= 0 && bufd <= c22B && m.pos+bufd == src.off && bytes.Equal(pk, src.data[m.pos:src.off])
@@ -577,14 +583,20 @@ func c22readerStep(b *Reader, src *c22src, m *c22model, op c22rop) (res c22res) 
 		sig := "reader:data:" + opn + ":buffer-desync:" + how
 		switch {
 		case op.kind == c22oUnreadByte:
+			// two mechanisms: the remembered lastByte is not the last byte delivered, or the
+			// plain b.r-- re-exposes buffer bytes that a bypassing operation (direct large Read,
+			// WriteTo of an io.WriterTo source) left behind
 			sig = "reader:data:UnreadByte:stale-byte-reinserted"
+			if !preRemembered {
+				sig = "reader:data:UnreadByte:stale-buffer-reexposed"
+			}
 			if pan {
 				sig += ":panic"
 			}
 		case op.kind == c22oUnreadRune && kind == "accepted-stale":
 			sig = "reader:data:UnreadRune:stale-rune-size:" + how
 		}
-		det := fmt.Sprintf("after %s (stream position %d, %d pulled from source): Buffered()=%d, Peek(Buffered())=%q, stream has %q there (r=%d w=%d)", op.name, m.pos, src.off, bufd, pk, src.data[c22clamp(m.pos, len(src.data)):src.off], b.r, b.w)
+		det := fmt.Sprintf("after %s (stream position %d, %d pulled from source): Buffered()=%d, buffered bytes buf[r:w]=%q, stream has %q there (r=%d w=%d)", op.name, m.pos, src.off, bufd, pk, src.data[c22clamp(m.pos, len(src.data)):src.off], b.r, b.w)
 		if pan {
 			det += "; panic: " + pv
 		}
